@@ -162,6 +162,8 @@ func genTxPlan(prop string, seed uint64, thorough bool) *Plan {
 					add("BLMOVE", "nosuchlist", g.key(), "LEFT", "RIGHT", "0")
 				case 8:
 					add("UNWATCH")
+				case 9:
+					add("SELECT", g.pick("0", "1", "1")) // queued like anything else; effective from its place in the queue
 				default:
 					add(g.concCmd(tk)...)
 				}
